@@ -80,7 +80,7 @@ def mandatory_bins(tier):
          "double", "negate", "scalar_mul_all_0_to_2n_plus_1", "scalar_mul_precompute_path", "scalar_mul_without_order", "mul_add", "affine_point_arithmetic", "mixed_jacobi_affine", "equality_across_representations",
          "anomalous_curve_n_eq_p", "curve_a_zero", "curve_a_minus_3", "curve_p_1_mod_4",
          "shipped_curve", "kG_vs_openssl", "kQ_vs_openssl", "mul_add_vs_openssl", "negation_scale_combination", "scalar_n", "scalar_n_plus_1", "scalar_2^k", "scalar_2^k-1", "ecdh_vs_openssl", "ecdh_edge_scalar",
-         "invalid_off_curve", "invalid_coordinate_ge_p", "invalid_congruent_coordinate_ge_p", "invalid_zero_zero", "invalid_other_curve_point", "invalid_infinity", "repository_suite_under_group_law_monitor"]
+         "invalid_off_curve", "invalid_coordinate_ge_p", "invalid_congruent_coordinate_ge_p", "invalid_zero_zero", "invalid_other_curve_point", "invalid_point_object_of_sibling_curve", "invalid_infinity", "repository_suite_under_group_law_monitor"]
     return b
 
 
@@ -455,6 +455,51 @@ def run_shipped(ns, ctx, spec):
             ctx.exc(e)
     else:
         ctx.bin("invalid_other_curve_point")
+    # affine Point objects that belong to ANOTHER CurveFp (same p and a, other b = invalid-curve input; or another shipped curve)
+    a_, b_ = int(cv.curve.a()), int(cv.curve.b())
+    for _try in range(40):
+        b2 = (b_ + 1 + _try) % p
+        sib = EC.CurveFp(p, a_, b2, 1)
+        x = rng.randrange(p)
+        rhs = (x * x * x + a_ * x + b2) % p
+        if p % 4 == 3:
+            y = pow(rhs, (p + 1) // 4, p)
+            if y * y % p != rhs:
+                continue
+        else:
+            try:
+                y = int(ns.numbertheory.square_root_mod_prime(rhs, p))
+            except Exception:
+                continue
+        if (y * y - (x * x * x + a_ * x + b_)) % p == 0:
+            continue
+        ctx.bin("invalid_point_object_of_sibling_curve")
+        for wname, mkpt in (("affine_point_of_sibling_curve", lambda: PT(sib, x, y)), ("jacobi_point_of_sibling_curve", lambda: PJ(sib, x, y, 1))):
+            ctx.ev()
+            ctx.distinct(cv.name, wname, x)
+            try:
+                vk_bad = K.VerifyingKey.from_public_point(mkpt(), curve=cv)
+                ctx.violation("invalid_public_point_accepted:other_curve_point:" + wname, {"curve": cv.name, "x": x, "y": y, "sibling_b": b2}, dict(rp, x=hex(x), y=hex(y)))
+                try:
+                    e = ns.ecdh.ECDH(curve=cv, private_key=K.SigningKey.from_secret_exponent(7, curve=cv))
+                    e.load_received_public_key(vk_bad)
+                    e.generate_sharedsecret_bytes()
+                    ctx.violation("invalid_public_point_accepted:other_curve_point:ecdh_computes_secret_with_it", {"curve": cv.name}, rp)
+                except Exception as e2:
+                    ctx.exc(e2)
+            except Exception as e1:
+                ctx.exc(e1)
+        break
+    if others:
+        oc = others[0]
+        ox, oy = ossl.point_mul(oc.openssl_name, 11)
+        if ox < p and oy < p and (oy * oy - (ox * ox * ox + a_ * ox + b_)) % p:
+            ctx.ev()
+            try:
+                K.VerifyingKey.from_public_point(PT(oc.curve, ox, oy), curve=cv)
+                ctx.violation("invalid_public_point_accepted:other_curve_point:affine_point_of_other_shipped_curve", {"curve": cv.name, "other": oc.name}, rp)
+            except Exception as e1:
+                ctx.exc(e1)
     ctx.bin("invalid_infinity")
     for wname, fn in (("from_public_point", lambda: K.VerifyingKey.from_public_point(INF, curve=cv)), ("from_string_00", lambda: K.VerifyingKey.from_string(b"\x00", curve=cv)),
                       ("from_public_point_jacobi_inf", lambda: K.VerifyingKey.from_public_point(G * n if (G * n) is not INF else PJ(cv.curve, 0, 0, 1, n), curve=cv))):
@@ -481,7 +526,9 @@ def run_suite(ctx, spec):
     here = os.path.dirname(os.path.dirname(os.path.abspath(__file__)))
     tmp = tempfile.mkdtemp(prefix="c17-suite-", dir=os.environ.get("VERIF_SCRATCH"))
     try:
-        subprocess.run("git -C %s ls-files -z | (cd %s && xargs -0 -I{} cp --parents {} %s)" % (REPO, REPO, tmp), shell=True, check=True)
+        # plain copy of the working tree under test (also works when $VERIF_REPO is not a git checkout)
+        os.rmdir(tmp)
+        shutil.copytree(REPO, tmp, ignore=shutil.ignore_patterns(".git", ".hypothesis", "__pycache__", "t", ".benchmarks", ".idea", ".github", "seed*"))
         pkg = os.path.join(tmp, "appnotes", "register_crypto_plugin", "ecdsa")
         shutil.copy(os.path.join(here, "suite_monitor_conftest.py"), os.path.join(pkg, "conftest.py"))
         out = os.path.join(tmp, "monitor.json")
